@@ -477,6 +477,18 @@ def rule_optional(facts):
 
             def on_def(bb, i, st, fld=fld):
                 rv = st.rv
+                if rv is None:
+                    # a call: `get_multibyte(input).map(Some)` builds Ok(Some(..)) / passes the error on
+                    t_ = st.term
+                    nm_ = flow.declared(t_) or ""
+                    if nm_.endswith(("Result::map", "Option::map")) and len(t_.args) == 2 and (t_.args[1].fn is not None) and \
+                            (t_.args[1].fn.name or "").endswith("Option::Some"):
+                        src = tm.of_operand(t_.args[0])
+                        cs = [q for q in _subterms(src) if q[0] == "call" and q[1].endswith("get_multibyte")]
+                        if cs:
+                            first_read.setdefault(fld, cs[0][3])
+                        return 1
+                    return None
                 if rv.k == "aggregate" and rv.agg == "adt" and rv.adt_name.endswith("Option"):
                     if rv.variant == 1:
                         src = tm.of_operand(rv.ops[0])
